@@ -74,4 +74,21 @@ theorem src_downscale_multiplier_int32_to_int16_eq_model (a : Int) :
   py_exec [downscale_multiplier_int32_to_int16, downscaleMultiplierInt32ToInt16, chk32, inI32_iff, inI16_iff, i32max, i16max, errRel]
   py_finish
 
+/-- `saturating_rounding_multiply_by_pot(x, exponent)`, all Python ints -/
+theorem src_saturating_rounding_multiply_by_pot_eq_model (x e : Int) :
+    Agrees errRel (saturating_rounding_multiply_by_pot (.py x) (.py e)) (saturatingRoundingMultiplyByPot x e) := by
+  unfold saturatingRoundingMultiplyByPot shiftLeft32 chk32 pow2
+  delta i32min i32max
+  py_exec [saturating_rounding_multiply_by_pot, shift_left32, inI32_iff, errRel]
+  py_finish
+
+/-- `rescale(integer_bits_src, integer_bits_dst, x)`, all Python ints -/
+theorem src_rescale_eq_model (src dst x : Int) :
+    Agrees errRel (Gen.SrcFpMath.rescale (.py src) (.py dst) (.py x)) (FpMath.rescale src dst x) := by
+  unfold FpMath.rescale saturatingRoundingMultiplyByPot shiftLeft32 chk32 pow2
+  delta i32min i32max
+  py_exec [Gen.SrcFpMath.rescale, saturating_rounding_multiply_by_pot, shift_left32, fits32_iff, errRel, mrdbp_spec,
+    rdbp_spec .py x (-(src - dst)) (by py_side) trivial (Or.inl rfl)]
+  py_finish
+
 end VelaVerif.Props.C19Src
